@@ -416,6 +416,7 @@ COMBINATORS = {
     _O + "map_or_else": (OPT, {1: ("call", 2), 0: ("call0", 1)}),
     _O + "unwrap_or": (OPT, {1: ("payload",), 0: ("arg", 1)}),
     _O + "unwrap_or_else": (OPT, {1: ("payload",), 0: ("call0", 1)}),
+    _O + "unwrap_or_default": (OPT, {1: ("payload",), 0: ("default",)}),
     _O + "or": (OPT, {1: ("wrap", OPT, 1), 0: ("arg", 1)}),
     _O + "or_else": (OPT, {1: ("wrap", OPT, 1), 0: ("call0", 1)}),
     _O + "filter": (OPT, {1: ("filter", 1), 0: ("unit", OPT, 0)}),
@@ -427,6 +428,7 @@ COMBINATORS = {
     _R + "err": (RES, {0: ("unit", OPT, 0), 1: ("wrap", OPT, 1)}),
     _R + "unwrap_or": (RES, {0: ("payload",), 1: ("arg", 1)}),
     _R + "unwrap_or_else": (RES, {0: ("payload",), 1: ("call", 1)}),
+    _R + "unwrap_or_default": (RES, {0: ("payload",), 1: ("default",)}),
     _R + "or_else": (RES, {0: ("wrap", RES, 0), 1: ("call", 1)}),
     _B + "then": ("bool", {1: ("wrapcall0", OPT, 1, 1), 0: ("unit", OPT, 0)}),
     _B + "then_some": ("bool", {1: ("wraparg", OPT, 1, 1), 0: ("unit", OPT, 0)}),
@@ -648,6 +650,16 @@ class _Lower:
                                 {"t": "switch", "d": {"m": {"l": dl, "p": []}}, "dty": {"k": "prim", "n": "isize"},
                                  "targets": [[0, ex_none], [1, ex_some]], "else": dead, "sp": sp})
             return sw, [(ex_some, (OPT, 1, {"c": {"l": tup, "p": []}})), (ex_none, (OPT, 0, None))]
+        if kind == "default":
+            # `unwrap_or_default()` on the empty variant: the call `Default::default()`
+            if dest["p"]:
+                raise _NoLower()
+            dty = self.c["locals"][dest["l"]].get("ty")
+            ex = self.new_block([], {"t": "goto", "to": cont, "sp": sp})
+            call = self.new_block([], {"t": "call", "f": {"n": "core::default::Default::default", "a": [copy.deepcopy(dty)],
+                                                              "trait": "core::default::Default", "name": "default"},
+                                       "args": [], "dest": copy.deepcopy(dest), "to": ex, "unwind": unwind, "sp": sp, "fn_sp": sp})
+            return call, [(ex, None)]
         if kind == "arg":
             ex = self.new_block([{"s": "assign", "p": copy.deepcopy(dest), "rv": {"r": "use", "o": copy.deepcopy(args[action[1]])}, "sp": sp}],
                                 {"t": "goto", "to": cont, "sp": sp})
